@@ -45,6 +45,9 @@ type Msg struct {
 	Slots   []Slot `json:"slots"`
 	// static findings of the extraction (anything that does not look like generated code)
 	Oddities []string `json:"oddities,omitempty"`
+	// Deps: decoder case of element X contains a hand-written statement that mentions element Y (or the number of
+	// octets left, "<remaining>"): the treatment of X depends on more than X's own octets
+	Deps map[string][]string `json:"deps,omitempty"`
 }
 
 type Table struct {
@@ -336,11 +339,46 @@ func slotOf(expr string) string {
 	return m[1]
 }
 
+// the receiver passed on as an argument, or a method of the message other than an element field
+var wholeMsgRe = regexp.MustCompile(`[(,]\s*a\s*[,)]|\ba\.[a-z]\w*\(|\ba\.[A-Z]\w*\(`)
+
 func extractDecode(fset *token.FileSet, fd *ast.FuncDecl, m *Msg, idx map[string]int, name string, consts map[string]int) {
-	odd := func(s string) { m.Oddities = append(m.Oddities, "Decode"+name+": "+s) }
+	cur := ""
+	var curStmt ast.Stmt
+	odd := func(s string) {
+		m.Oddities = append(m.Oddities, "Decode"+name+": "+s)
+		if cur == "" || curStmt == nil {
+			return
+		}
+		// which other elements does the hand-written statement mention?
+		txt := exprString(fset, curStmt)
+		add := func(d string) {
+			if m.Deps == nil {
+				m.Deps = map[string][]string{}
+			}
+			for _, x := range m.Deps[cur] {
+				if x == d {
+					return
+				}
+			}
+			m.Deps[cur] = append(m.Deps[cur], d)
+		}
+		for sn := range idx {
+			if sn != cur && (strings.Contains(txt, "a."+sn+".") || strings.Contains(txt, "a."+sn+" ") || strings.Contains(txt, "a."+sn+")") || strings.Contains(txt, "a."+sn+",")) {
+				add(sn)
+			}
+		}
+		if strings.Contains(txt, "buffer.Len()") || strings.Contains(txt, "byteArray") {
+			add("<remaining>")
+		}
+		if wholeMsgRe.MatchString(txt) {
+			add("<message>") // the message itself is handed to a helper: it may look at any element
+		}
+	}
 	var handle func(stmts []ast.Stmt, optional bool, caseSlot string)
 	handle = func(stmts []ast.Stmt, optional bool, caseSlot string) {
 		for _, st := range stmts {
+			cur, curStmt = caseSlot, st
 			if tgt, ok, returns := rwTarget(fset, st, "Read"); ok {
 				if tgt == "&ieiN" {
 					if !returns {
